@@ -81,6 +81,9 @@ type c02Case struct {
 	Q       *c02Frame `json:"q,omitempty"` // second message (from S2, legacy, 1M gas) when set
 	// Prefund: the addresses the root contract's next CREATE and every CREATE2 of the grammar will produce already hold 7 wei
 	Prefund bool `json:"prefund,omitempty"`
+	// ChildBal: every child frame contract, and every address a CREATE / CREATE2 deploying a child frame can produce,
+	// holds this many wei before the transaction
+	ChildBal uint64 `json:"child_bal,omitempty"`
 }
 
 func (c *c02Case) String() string {
@@ -90,6 +93,9 @@ func (c *c02Case) String() string {
 	}
 	if c.Prefund {
 		s += " prefunded-create-addresses"
+	}
+	if c.ChildBal != 0 {
+		s += fmt.Sprintf(" child-frames-hold=%d", c.ChildBal)
 	}
 	return s
 }
@@ -166,17 +172,19 @@ type c02Built struct {
 	TxTypes  []uint8
 	Watch    []common.Address // universe addresses
 	Creators []common.Address // contexts that may execute CREATE / CREATE2 (nil when the program has none)
-	RootAddr common.Address
+	// FrameCands: every address a CREATE (creator nonce 1) / CREATE2 (salt 0) that deploys a child frame can produce in any creator context
+	FrameCands []common.Address
+	RootAddr   common.Address
 }
 
 func c02Build(c *c02Case) *c02Built {
 	b := &c02Built{Fixed: c02FixedUniverse(c.X)}
-	var rootCode []byte
-	var children []c02UAcct
-	if c.Q != nil {
-		rootCode, children = c02CompileTwo(c.P, c.Q)
-	} else {
-		rootCode, children = c02Compile(c.P)
+	rootCode, cc := c02CompileCC(c.P, c.Q)
+	children := cc.Children
+	if c.ChildBal != 0 {
+		for i := range children {
+			children[i].Balance = new(big.Int).SetUint64(c.ChildBal)
+		}
 	}
 	sender, nonce := c02S, uint64(5)
 	if c.Tx.Sender == "poor" {
@@ -204,17 +212,35 @@ func c02Build(c *c02Case) *c02Built {
 			b.PerCase = append(b.PerCase, c02UAcct{a, c02Acct{Exists: true, Balance: big.NewInt(7)}})
 		}
 	}
-	for _, a := range b.Fixed {
-		b.Watch = append(b.Watch, a.Addr)
-	}
-	for _, a := range b.PerCase {
-		b.Watch = append(b.Watch, a.Addr)
-	}
 	if c.P.hasOp("create", "create2") || c.Q.hasOp("create", "create2") {
 		b.Creators = append(b.Creators, b.RootAddr)
 		for _, ch := range children {
 			b.Creators = append(b.Creators, ch.Addr)
 		}
+	}
+	if len(cc.Inits) > 0 {
+		seen := map[common.Address]bool{}
+		for _, cr := range b.Creators {
+			as := []common.Address{ethcrypto.CreateAddress(cr, 1)}
+			for _, init := range cc.Inits {
+				as = append(as, ethcrypto.CreateAddress2(cr, [32]byte{}, ethcrypto.Keccak256(init)))
+			}
+			for _, a := range as {
+				if !seen[a] {
+					seen[a] = true
+					b.FrameCands = append(b.FrameCands, a)
+					if c.ChildBal != 0 {
+						b.PerCase = append(b.PerCase, c02UAcct{a, c02Acct{Exists: true, Balance: new(big.Int).SetUint64(c.ChildBal)}})
+					}
+				}
+			}
+		}
+	}
+	for _, a := range b.Fixed {
+		b.Watch = append(b.Watch, a.Addr)
+	}
+	for _, a := range b.PerCase {
+		b.Watch = append(b.Watch, a.Addr)
 	}
 
 	var al ethtypes.AccessList
@@ -538,7 +564,7 @@ func (e *c02Ev) compare(c *c02Case, b *c02Built, evr c02EvRun, warm []common.Add
 	ref := newGethRef(u, e.ethCfg, e.blkCtx, warm)
 	var cands []common.Address
 	if b.Creators != nil {
-		cands = c02CreateCandidates(b.Creators, 12)
+		cands = append(c02CreateCandidates(b.Creators, 12), b.FrameCands...)
 	}
 	for i, msg := range b.Msgs {
 		ro := ref.Apply(msg)
@@ -998,6 +1024,8 @@ func c02Enumerate(thorough bool, yield func(c *c02Case)) {
 			yield(&c02Case{Space: "flat-create", Flavour: "bech32", Slot0: 0, X: "absent", P: f, Tx: c02Tx{Type: "dynfee", Gas: "1M", Create: true}})
 		}
 	}
+	// spaces "repeat" / "repeat-tree": the same account operated on k times inside one transaction (c02_repeat.go)
+	c02EnumerateRepeat(thorough, yield)
 }
 
 // ---------------------------------------------------------------------------
@@ -1006,7 +1034,18 @@ func c02Enumerate(thorough bool, yield func(c *c02Case)) {
 
 type c02Sanity struct {
 	c     *c02Case
-	class string // expected outcome class on both sides
+	class string         // expected outcome class on both sides
+	words map[int]uint64 // expected 32-byte words of the return data (word index -> value) on both sides
+}
+
+// c02WordsOK: ret holds every expected word.
+func c02WordsOK(ret []byte, words map[int]uint64) bool {
+	for i, v := range words {
+		if len(ret) < 32*(i+1) || new(big.Int).SetBytes(ret[32*i:32*i+32]).Cmp(new(big.Int).SetUint64(v)) != 0 {
+			return false
+		}
+	}
+	return true
 }
 
 func c02SanityCases() []c02Sanity {
@@ -1068,7 +1107,7 @@ func runC02(replay string) int {
 	}
 	run.Sharded(Shards(), func(shard, n int) {
 		// alphabet sanity + determinism (every shard: cheap)
-		for _, s := range c02SanityCases() {
+		for _, s := range append(c02SanityCases(), c02RepeatSanity()...) {
 			e := getEv(s.c.Flavour)
 			r1 := e.eval(s.c)
 			r2 := e.eval(s.c)
@@ -1080,7 +1119,8 @@ func runC02(replay string) int {
 				continue
 			}
 			run.Count("sanity_cases", 1)
-			if len(r1.Findings) > 0 || r1.EvOuts[0].Class() != s.class || r1.RefOuts[0].Class() != s.class {
+			if len(r1.Findings) > 0 || r1.EvOuts[0].Class() != s.class || r1.RefOuts[0].Class() != s.class ||
+				(len(r1.Findings) == 0 && (!c02WordsOK(r1.EvOuts[0].Ret, s.words) || !c02WordsOK(r1.RefOuts[0].Ret, s.words))) {
 				run.Fail(ev.Finding{Clause: "alphabet-sanity", Detail: fmt.Sprintf("%s: expected %s on both sides, evermint %s, go-ethereum %s, %d finding(s)", s.c, s.class, r1.EvOuts[0], r1.RefOuts[0], len(r1.Findings)), Replay: s.c})
 			}
 		}
@@ -1135,6 +1175,16 @@ func c02Account(run *ev.Run, c *c02Case, res c02Result) {
 		run.Count("pairs_equal", int64(len(res.EvOuts)))
 	}
 	run.Outcome(c.Flavour + "|" + last.Class() + "|" + status)
+	if c.Space == "repeat" || c.Space == "repeat-tree" {
+		// how many different observation vectors the sequences produce (non-vacuity of the observers)
+		h := sha256.Sum256(res.EvOuts[0].Ret)
+		run.Distinct("repeat-ret-" + hex.EncodeToString(h[:6]))
+		run.Count("cases_repeat_with_deleted_account", map[bool]int64{true: 1}[res.Deleted])
+		run.Count("cases_"+c.Space+"_"+res.EvOuts[0].Class(), 1)
+	}
+	if !res.Agree {
+		run.Count("cases_differ_"+c.Space, 1)
+	}
 	if len(last.Logs) > 0 {
 		run.Count("cases_with_logs", 1)
 	}
@@ -1161,9 +1211,10 @@ func c02Rule(thorough bool) string {
 		"txgrid = all 1-gadget frames x {legacy, access-list empty / sender+slot / target+slot, dynamic-fee} x gas{intrinsic, intrinsic+1, 60k, 1M} x value{0,1} x {message call, contract creation}; txedge = intrinsic-1, nonce+-1, sender without funds; " +
 		"tree2 = [pre] CALL-kind(child frame, value, gas) [post] with all child frames of <=2 gadgets of a 26-gadget alphabet (572), post gadgets include calling / inspecting the same child again; tree3 = root -> child -> grandchild; " +
 		"prefund = frames with CREATE/CREATE2 whose result addresses already hold a balance; second = 13 prefix programs x every program as the second message (fresh StateDB, committed-vs-current storage, re-created and self-destructed accounts); " +
-		"control = frames touching 0x0 in a world without any and with three custom precompiles; block = programs (+SELFBALANCE) through complete FinalizeBlock with non-zero prices (legacy 2x base fee, dynamic-fee with tip, access-list), one fresh world per case"
+		"repeat = the same account operated on k in {2,3} times inside one transaction: an orchestrator frame CALLs the same child k times, call i carrying value v_i in {0, (1,2,1)[i]} (all 2^k vectors), child program in {SELFDESTRUCT to EOA / itself / its caller / an unused address / ecrecover, each bare, after SSTORE, after LOG(SELFBALANCE); return SELFBALANCE; LOG(SELFBALANCE) + forward SELFBALANCE by CALL to EOA / caller / unused; forward then SELFDESTRUCT; SELFDESTRUCT through DELEGATECALL to a library; two-contract casts: self-destruct to the sibling in turns, sibling refunds the destroyed contract by CALL} x child {standing, deployed by CREATE / CREATE2 in the same tx} x child {empty, holding 3 wei (for CREATE*: the address holds them before)} x orchestrator {root frame (+ a second tx that observes and pays the child again), sub-frame that returns, sub-frame that REVERTs; after a sub-frame the root observes, pays the child 1 wei and observes again}; after EVERY call the orchestrator stores BALANCE / EXTCODESIZE / EXTCODEHASH of every cast contract and BALANCE of the beneficiary into its return data (new targets CALLER, #i = i-th frame contract, @n = address in result word n, literal; CALL value SELFBALANCE; k-word return capture), so intermediate states are compared; repeat-tree = tree2 with the CALL repeated: every child frame of <=2 gadgets of the small alphabet (572) called k times with every value vector and observed after each call; " +
+		"control = frames touching 0x0 in a world without any and with three custom precompiles; block = programs (+SELFBALANCE; + repeat sequences over standing children) through complete FinalizeBlock with non-zero prices (legacy 2x base fee, dynamic-fee with tip, access-list), one fresh world per case"
 	if thorough {
-		s += "; thorough: all six pre-states everywhere in flat/txgrid, 6x11 pre/post combinations and gas 0 in tree2, depth-3 trees with <=2-gadget grandchildren under 4 outer call kinds, 3-gadget frames of the small alphabet, the 2-gadget space also under a 60k access-list tx with value and as contract-creation tx, as second message (all-gas calls), sstore-in-constructor and value-carrying CREATE variants, 10x more block cases"
+		s += "; thorough: all six pre-states everywhere in flat/txgrid, 6x11 pre/post combinations and gas 0 in tree2, depth-3 trees with <=2-gadget grandchildren under 4 outer call kinds, 3-gadget frames of the small alphabet, the 2-gadget space also under a 60k access-list tx with value and as contract-creation tx, as second message (all-gas calls), sstore-in-constructor and value-carrying CREATE variants, 10x more block cases; repeat / repeat-tree with k = 4, sub-frames entered by DELEGATECALL / CALLCODE, all three EOA states, every sequence also under an access-list tx and with 2300-gas calls, second tx everywhere, pre-funded children in repeat-tree"
 	}
 	return s
 }
